@@ -326,6 +326,11 @@ func hash(outer, t types.Type, x value) int {
 
 // load returns the value of type T in *addr.
 func load(T types.Type, addr *value) value {
+	if *addr == nil {
+		// a local whose Alloc has not run on this path yet (locals are zeroed
+		// lazily, by their Alloc instruction): it holds the zero value
+		*addr = zero(T)
+	}
 	switch T := T.Underlying().(type) {
 	case *types.Struct:
 		v := (*addr).(structure)
@@ -348,6 +353,12 @@ func load(T types.Type, addr *value) value {
 
 // store stores value v of type T into *addr.
 func (in *interpreter) store(T types.Type, addr *value, v value) {
+	if *addr == nil {
+		switch T.Underlying().(type) {
+		case *types.Struct, *types.Array:
+			in.writeCell(addr, zero(T))
+		}
+	}
 	switch T := T.Underlying().(type) {
 	case *types.Struct:
 		lhs := (*addr).(structure)
